@@ -325,6 +325,14 @@ func builtinStringSplit(call FunctionCall) Value {
 		targetLength := len(target)
 		search := separatorValue.object().regExpValue().regularExpression
 		valueArray := []Value{}
+		if targetLength == 0 {
+			// ES5 15.5.4.14 step 11: an empty subject gives [] if the separator
+			// matches the empty string and [""] otherwise.
+			if !search.MatchString(target) {
+				valueArray = append(valueArray, stringValue(target))
+			}
+			return objectValue(call.runtime.newArrayOf(valueArray))
+		}
 		result := search.FindAllStringSubmatchIndex(target, -1)
 		lastIndex := 0
 		found := 0
